@@ -40,6 +40,11 @@ func (s *Server) manifestDelete(repoStr, arg string) http.HandlerFunc {
 			return
 		}
 		defer repo.Done()
+		if *s.conf.API.Referrer.Enabled && !types.RefTagRE.MatchString(arg) {
+			// the referrers response and the index entry change together
+			s.referrerMu.Lock()
+			defer s.referrerMu.Unlock()
+		}
 		index, err := repo.IndexGet()
 		if err != nil {
 			w.WriteHeader(http.StatusNotFound)
@@ -393,6 +398,11 @@ func (s *Server) manifestPut(repoStr, arg string) http.HandlerFunc {
 			desc.Annotations = map[string]string{
 				types.AnnotRefName: tag,
 			}
+		}
+		if subject != "" {
+			// the index entry and the referrers response change together
+			s.referrerMu.Lock()
+			defer s.referrerMu.Unlock()
 		}
 		err = repo.IndexInsert(desc, addOpts...)
 		if err != nil {
